@@ -696,6 +696,11 @@ func (e *Env) call(x *ECall) (Val, types.Type) {
 			return e.fail("conversion %s(%s) unsupported", x.Fun, vt)
 		}
 	}
+	if i := strings.LastIndex(x.Fun, "."); i >= 0 {
+		if _, ok := t.eng.contracts.Preds[x.Fun[i+1:]]; ok {
+			x = &ECall{Fun: x.Fun[i+1:], Args: x.Args} // pkg.pred(...): predicates are global by name
+		}
+	}
 	if p, ok := t.eng.contracts.Preds[x.Fun]; ok {
 		if len(x.Args) != len(p.Params) {
 			return e.fail("%s: %d arguments expected", x.Fun, len(p.Params))
